@@ -33,6 +33,8 @@ var scenarios = []scenario{
 	{"stale-lease-commit-overwrites-newer-op", runStaleLease},
 	{"recovery-applies-older-op-over-newer", runRecoveryOrder},
 	{"partition-heals-after-op-recovered", runPartitionHeals},
+	{"late-feedback-silences-newer-op:fault-free", runOverwriteAfterConvergence},
+	{"write-during-join-never-reaches-new-node:fault-free", runWriteDuringJoin},
 }
 
 const wd = 30 * time.Second // watchdog for every wait (expiry -> inconclusive)
@@ -406,4 +408,90 @@ func runPartitionHeals(ctx context.Context, h *harness.H, c int, r *prng.R, sc *
 	}
 	cl.Net.MuteTxFrom(cl.Nodes[P].Addr, false)
 	return t, finish(h, c, sc, t, fmt.Sprintf("n%d P%d L%d pre%d", nodes, P, L, pre))
+}
+
+// --- fault-free: overwrite a key shortly after its previous value has converged ----------
+// No fault is injected. For several fresh keys: the leaseholder sets k, the client waits
+// until every node shows the value, waits 0-12 gossip intervals more, and writes k again.
+func runOverwriteAfterConvergence(ctx context.Context, h *harness.H, c int, r *prng.R, sc *scenario) (*aspenkit.ClusterTrace, string) {
+	nodes := r.Range(3, 4)
+	trials := 8
+	cl, err := aspenkit.OpenCluster(ctx, r, aspenkit.ClusterParams{Nodes: nodes})
+	if err != nil {
+		return nil, "open:" + err.Error()
+	}
+	defer func() { _ = cl.Close() }()
+	var keys []aspenkit.KeySpec
+	for i := 0; i < trials; i++ {
+		L := r.Intn(nodes)
+		keys = append(keys, aspenkit.KeySpec{Name: fmt.Sprintf("k%d", i), Writer: L, Leader: L})
+	}
+	t := newTrace(cl, keys...)
+	for _, ks := range keys {
+		w1 := cl.DoWrite(ctx, t.Hist, ks, false, 0)
+		if !w1.OK {
+			return t, "write:" + w1.Err
+		}
+		if !cl.WaitAll(ctx, ks.Name, wd, func(s aspenkit.KeyState) bool { return s.Present && s.Value == w1.Value }) {
+			return t, "v1-did-not-spread"
+		}
+		time.Sleep(time.Duration(r.I64n(int64(12*cl.P.KVInterval) + 1)))
+		if w := cl.DoWrite(ctx, t.Hist, ks, r.Chance(1, 4), 0); !w.OK {
+			return t, "write:" + w.Err
+		}
+	}
+	return t, finish(h, c, sc, t, fmt.Sprintf("n%d", nodes))
+}
+
+// --- fault-free: writes racing a node join -------------------------------------------
+// No fault is injected. A 2-3 node cluster; node 1's client writes a few keys while a new
+// node is joining (pledge, first membership gossip, start-up recovery).
+func runWriteDuringJoin(ctx context.Context, h *harness.H, c int, r *prng.R, sc *scenario) (*aspenkit.ClusterTrace, string) {
+	nodes := r.Range(2, 3)
+	W := r.Intn(nodes)
+	nk := r.Range(2, 5)
+	cl, err := aspenkit.OpenCluster(ctx, r, aspenkit.ClusterParams{Nodes: nodes})
+	if err != nil {
+		return nil, "open:" + err.Error()
+	}
+	defer func() { _ = cl.Close() }()
+	var keys []aspenkit.KeySpec
+	for i := 0; i < nk; i++ {
+		keys = append(keys, aspenkit.KeySpec{Name: fmt.Sprintf("k%d", i), Writer: W, Leader: W})
+	}
+	t := newTrace(cl, keys...)
+	gap := time.Duration(r.I64n(int64(4*cl.P.KVInterval) + 1))
+	lead := time.Duration(r.I64n(int64(10*cl.P.KVInterval) + 1))
+	done := make(chan string, 1)
+	wn, hist := cl.Nodes[W], t.Hist
+	go func() {
+		// the writer goroutine owns hist until it reports on done
+		for _, ks := range keys {
+			wr := aspenkit.Write{Key: ks.Name, Value: ks.Name + "#0", OK: true}
+			octx, cancel := context.WithTimeout(ctx, 20*time.Second)
+			err := wn.DB.Set(octx, []byte(ks.Name), []byte(wr.Value))
+			cancel()
+			if err != nil {
+				done <- "write:" + err.Error()
+				return
+			}
+			hist[ks.Name] = append(hist[ks.Name], wr)
+			time.Sleep(gap)
+		}
+		done <- ""
+	}()
+	time.Sleep(lead)
+	n, err := cl.AddNode(ctx, nodes)
+	if msg := <-done; msg != "" {
+		return t, msg
+	}
+	if err != nil {
+		return t, "join:" + err.Error()
+	}
+	cl.Attach(n)
+	t.Spec.Nodes = len(cl.Nodes)
+	if !cl.WaitMembership(wd) {
+		return t, "membership-did-not-converge"
+	}
+	return t, finish(h, c, sc, t, fmt.Sprintf("n%d W%d k%d", nodes, W, nk))
 }
